@@ -51,7 +51,7 @@ func cloneAct(a Action) Action {
 
 // Execute replays the behaviour on the real code and records the trace.
 func (r *Run) Execute() {
-	w, err := NewWorld(r.C, r.Seed, fmt.Sprintf("run%d", r.No))
+	w, err := NewWorld(r.C, r.Seed, fmt.Sprintf("run%d", r.No), r.Plan.path())
 	if err != nil {
 		r.Err = err
 		return
@@ -62,7 +62,7 @@ func (r *Run) Execute() {
 		j["run"] = r.No
 		r.Lines = append(r.Lines, Line{J: j, Run: r.No, Pos: pos})
 	}
-	emit(-1, J{"k": "new", "first": r.C.First, "tabs": w.Tables(), "bad": w.takeBad()})
+	emit(-1, J{"k": "new", "first": r.C.First, "tabs": w.Tables(), "bad": w.takeBad(), "badkeys": w.takeBadKeys()})
 	step := func(pos int, a Action, drain bool) {
 		a = cloneAct(a)
 		l := J{"k": "step", "a": a, "verdict": "-", "r": noTickR(), "hash": "", "panic": "", "missing": false, "drain": drain, "err": ""}
@@ -126,6 +126,7 @@ func (r *Run) Execute() {
 		l["prod"] = prod
 		l["tabs"] = w.Tables()
 		l["bad"] = w.takeBad()
+		l["badkeys"] = w.takeBadKeys()
 		l["pending"] = len(w.inflight)
 		r.Steps++
 		if drain {
@@ -154,9 +155,68 @@ func (r *Run) Execute() {
 			}
 		}
 	}
+	corruptLines(r.Lines, os.Getenv("VERIF_GNOE2E_CORRUPT"))
 	r.Final = w.Tables()
-	emit(-1, J{"k": "end", "pending": len(w.inflight), "tabs": r.Final, "judge": judge, "bad": w.takeBad()})
+	emit(-1, J{"k": "end", "pending": len(w.inflight), "tabs": r.Final, "judge": judge, "bad": w.takeBad(), "badkeys": w.takeBadKeys()})
 	for _, nd := range w.nodes {
 		r.Pins = append(r.Pins, nd.srv.PinMismatches()...)
+	}
+}
+
+// corruptLines is the binding self-check: it falsifies one logged field of the recorded trace (the
+// real code is untouched); the trace layer must then report the named monitor.
+//
+//	ptr   the tx_pointer value after the first accepted keys delivery      -> C19_PointerArith
+//	ids   two identities of the first emitted trigger with >= 3 swapped    -> C19_Select
+//	hash  the identities hash of one of two equal requests of a slot       -> C19_Agree
+//	sig   the judged signature of the first delivered share message        -> X2_ShareGenuine
+//	an    the access node's verdict of the first produced keys message     -> C03_Accepted
+func corruptLines(lines []Line, what string) {
+	if what == "" || what == "dec" {
+		return
+	}
+	for _, l := range lines {
+		j := l.J
+		if j["k"] != "step" {
+			continue
+		}
+		a := j["a"].(Action)
+		switch what {
+		case "ptr":
+			if a.A == "dlv" && a.M.T == "keys" && j["verdict"] == "accept" {
+				s := j["tabs"].([]J)[a.N]["s"].(J)
+				row := s["ptr"].([]J)[0]
+				row["value"] = row["value"].(int) + 1
+				return
+			}
+		case "ids":
+			if tr, ok := j["r"].(TickR); ok && tr.Out == "emit" && len(tr.Trig.Ids) >= 3 {
+				ids := append([]ID{}, tr.Trig.Ids...)
+				ids[1], ids[2] = ids[2], ids[1]
+				tr.Trig.Ids = ids
+				j["r"] = tr
+				return
+			}
+		case "hash":
+			if tr, ok := j["r"].(TickR); ok && tr.Out == "emit" && a.N > 0 {
+				j["hash"] = "00" + j["hash"].(string)
+				return
+			}
+		case "sig":
+			if a.A == "dlv" && a.M.T == "shares" && j["verdict"] == "accept" {
+				a.M.Sigs = []string{"bad"}
+				j["a"] = a
+				return
+			}
+		case "an":
+			if prod, ok := j["prod"].([]ProdObs); ok {
+				for i := range prod {
+					if prod[i].M.T == "keys" {
+						prod[i].An = "reject"
+						return
+					}
+				}
+			}
+		}
 	}
 }
